@@ -36,6 +36,17 @@ theorem eq_of_mem_of_length_le_one {α : Type} {l : List α} (h : l.length ≤ 1
   | [x], _ => simp at ha hb; rw [ha, hb]
   | _ :: _ :: _, h => simp at h
 
+theorem eq_of_nodup_map {α β : Type} (f : α → β) : ∀ {l : List α}, (l.map f).Nodup →
+    ∀ {a b : α}, a ∈ l → b ∈ l → f a = f b → a = b
+  | [], _, _, _, ha, _, _ => by simp at ha
+  | x :: xs, hn, a, b, ha, hb, hf => by
+    simp only [List.map_cons, List.nodup_cons, List.mem_map, not_exists, not_and] at hn
+    rcases List.mem_cons.mp ha with hax | ha' <;> rcases List.mem_cons.mp hb with hbx | hb'
+    · rw [hax, hbx]
+    · exact absurd (by rw [← hf, hax]) (hn.1 b hb')
+    · exact absurd (by rw [hf, hbx]) (hn.1 a ha')
+    · exact eq_of_nodup_map f hn.2 ha' hb' hf
+
 theorem mem_classesAt {ents : List (String × Int)} {i : Int} {c : String} :
     c ∈ classesAt ents i ↔ (c, i) ∈ ents := by
   simp only [classesAt, List.mem_map, List.mem_filter]
@@ -65,9 +76,10 @@ theorem dictOk_sound {d : List (Int × String)} {ents : List (String × Int)}
     simp only [hf, Option.map_some, Option.some.injEq] at hg
     have hm := List.mem_of_find?_eq_some hf
     have hi : kv.1 = i := by simpa using List.find?_some hf
-    have := h.1 kv hm
-    rw [hg, hi] at this
-    simpa using this
+    obtain ⟨e, he, hp⟩ := List.any_eq_true.mp (h.1 kv hm)
+    simp only [Bool.and_eq_true, beq_iff_eq] at hp
+    have : e = (c, i) := by cases e; simp_all
+    rw [← this]; exact he
 
 theorem dictOk_complete {d : List (Int × String)} {ents : List (String × Int)}
     (h : dictOk d ents = true) {i : Int} {c : String} (hm : (c, i) ∈ ents) :
@@ -209,6 +221,32 @@ theorem rowOk_collisions {t : String} {v : Nat} {row : List IdEnt} (h : rowOk t 
     rw [hei'] at this
     simp only [Bool.and_eq_true, Bool.or_eq_true, decide_eq_true_eq, List.contains_iff_mem] at this
     exact this.2
+
+/-! ### `zipAll` -/
+
+theorem zipAll_left {α β : Type} {p : α → β → Bool} : ∀ {l₁ : List α} {l₂ : List β},
+    zipAll p l₁ l₂ = true → ∀ a ∈ l₁, ∃ b ∈ l₂, p a b = true
+  | [], [], _, a, ha => by simp at ha
+  | x :: xs, y :: ys, h, a, ha => by
+    simp only [zipAll, Bool.and_eq_true] at h
+    rcases List.mem_cons.mp ha with rfl | ha
+    · exact ⟨y, by simp, h.1⟩
+    · obtain ⟨b, hb, hp⟩ := zipAll_left h.2 a ha
+      exact ⟨b, List.mem_cons_of_mem _ hb, hp⟩
+  | [], _ :: _, h, _, _ => by simp [zipAll] at h
+  | _ :: _, [], h, _, _ => by simp [zipAll] at h
+
+theorem zipAll_right {α β : Type} {p : α → β → Bool} : ∀ {l₁ : List α} {l₂ : List β},
+    zipAll p l₁ l₂ = true → ∀ b ∈ l₂, ∃ a ∈ l₁, p a b = true
+  | [], [], _, b, hb => by simp at hb
+  | x :: xs, y :: ys, h, b, hb => by
+    simp only [zipAll, Bool.and_eq_true] at h
+    rcases List.mem_cons.mp hb with rfl | hb
+    · exact ⟨x, by simp, h.1⟩
+    · obtain ⟨a, ha, hp⟩ := zipAll_right h.2 b hb
+      exact ⟨a, List.mem_cons_of_mem _ ha, hp⟩
+  | [], _ :: _, h, _, _ => by simp [zipAll] at h
+  | _ :: _, [], h, _, _ => by simp [zipAll] at h
 
 /-! ### two-level lookup -/
 
